@@ -17,7 +17,7 @@ import vlib
 META = {
     "category": "proof",
     "text": "Coq theorems (Conc/Props_C06.v, closed under the global context): for every schedule of any number of client threads, the flush thread (rollover handshake through imm_trigger / mem_seq_no and its own wait-list link, version installation) and admissible compactions, the small-step interleaving model of lsmtk's write/load/range_scan refines an atomic multi-key snapshot store: every write (whole batch) takes effect at one instant between invocation and response, every read takes its view at one instant and returns the latest committed write per key (never stale w.r.t. completed writes, never unwritten, monotone), every view holds all or none of a batch, a scan is one snapshot; plus mutual exclusion / wait-list order = sequence order invariants, exclusive log ownership at seal, no duplicate skiplist insert. The code is tied to the model by real multi-threaded runs (2..8 clients + real memtable thread + real compaction threads, seeded yields and forced gate schedules): the recorded hook trace must be accepted step by step by the extracted model and the extracted atomic store, and the invocation/response history is checked by an independent oracle (a consistent cut in sequence order must exist for every read, respecting real time). F6 (batches torn by readers at the last ASSIGNED sequence number) was confirmed on the real code and repaired (70b43d5); the pre-repair machine is kept and proved to tear (C06_batch_atomic_refuted_before_repair). A second defect found by the gate harness (a failed write, e.g. an empty batch, left the wait list without waking the next writer: every later write hung) was repaired (bb64109) and the error path is part of the model.",
-    "note": "Trusted / not covered: sequential consistency (no weak-memory reasoning); skiplist insert and seek are atomic steps (C17); the implementation machine models a scan as snapshot + read steps and the merged/pruned/bounded cursor by its result: the cursor walk itself (next, prev, seek over merge + prune + bounds) is C03/C11's theorem, C06 validates the composition on the real store (every snapshot cursor walked forward and backward and used as a multi-get must show the atomic snapshot's map); WaitList at the level of its specification (refinement proved in C18), link never blocks (< 65536 writers in flight); condition variables as spurious-wake-up-allowed (safety only; liveness is C20); error paths of write (log append failure) are not modelled; real runs sample schedules (the theorems cover all); compactions in real runs are not replayed on the model (its tree only gets flushed files; equal reads are what is compared).",
+    "note": "Trusted / not covered: sequential consistency (no weak-memory reasoning); skiplist insert and seek are atomic steps (C17); the implementation machine models a scan as snapshot + read steps and the merged/pruned/bounded cursor by its result: the cursor walk itself (next, prev, seek over merge + prune + bounds) is C03/C11's theorem, C06 validates the composition on the real store (every snapshot cursor walked forward and backward and used as a multi-get must show the atomic snapshot's map); WaitList at the level of its specification (refinement proved in C18), link never blocks (< 65536 writers in flight); condition variables as spurious-wake-up-allowed (safety only; liveness is C20); the error path of write is modelled (LWFail / LWLockF / LWUnlinkF / LWRetF: the log refuses the batch before anything is inserted) but the only failing write the sessions produce is the empty batch (`empty-batch` from the log); oversized batches and log I/O errors are not exercised; values are their 8-byte big-endian id followed by a filler that is a function of the id (distinct ids per write), and the harness reports anything that is not exactly those bytes as an impossible id; real runs sample schedules (the theorems cover all); compactions in real runs are not replayed on the model (its tree only gets flushed files; equal reads are what is compared).",
 }
 
 PROPS = "theories/Conc/Props_C06.v"
@@ -81,6 +81,8 @@ def dedupe(es):
 
 
 def case_line(case):
+    if "sessions" in case:
+        return "  ;;  ".join(case_line(x) for x in case["sessions"])
     hdr = "opts=%s comp=%d yield=%d seed=%d slots=0 keys=%d" % (",".join(case["opts"]), case["comp"], case["yield"], case["seed"], case["keys"])
     if case.get("ctl"):
         hdr += " ctl=" + ";".join(case["ctl"])
@@ -187,6 +189,54 @@ def gen_case(rng, idx, tier):
             "style": style}
 
 
+def gen_reopen_case(rng, idx, tier):
+    """a store that is exited and opened again (1 or 2 times): the later sessions start with data in the tree
+    (flushed files and the recovered log).  The earlier sessions keep an unbounded memtable and no compaction
+    thread, flush only at quiescent points, and end quiescent (what KvsConc.reopen covers; overlapping files
+    that recovery cannot order are C01's known class K2)"""
+    nsess = rng.choice([2, 2, 3])
+    keys = rng.choice([3, 4, 6, 8])
+    sessions = []
+    for j in range(nsess):
+        c = gen_case(rng, idx * 10 + j, tier)
+        c["keys"] = keys
+        # re-aim the operations at the shared key universe and give every session its own value ids
+        progs = []
+        for t, ops in enumerate(c["progs"][:4]):
+            out = []
+            for i, o in enumerate(ops[:40 if tier == "quick" else 120]):
+                kind, arg = parse_op(o)
+                val = (j + 1) * 100000000 + (t + 1) * 1000000 + i
+                if kind == "w":
+                    es = [(k % keys, None if v is None else val) for k, v in arg]
+                    out.append("b" + ",".join("%d=%s" % (k, "~" if v is None else v) for k, v in es) if es else "e")
+                elif kind == "g":
+                    out.append("g%d" % (arg % keys))
+                elif kind == "m":
+                    out.append("m" + ",".join(str(k % (keys + 1)) for k in arg))
+                elif kind in ("s", "S"):
+                    out.append(kind if arg is None else "%s%d-%d" % (kind, min(arg[0] % keys, arg[1] % keys), max(arg[0] % keys, arg[1] % keys)))
+            progs.append(out)
+        c["progs"] = progs
+        if j < nsess - 1:
+            c["opts"] = ["--memtable-size-bytes", "100000000"] + STALL_OFF
+            c["optname"] = "roomy"
+            c["comp"] = 0
+            form = rng.below(4)
+            ctl = ["startall", "joinall"]
+            if form >= 1:
+                ctl += ["flush"]
+            if form >= 2:
+                ctl += ["b0=%d,%d=%d" % (90000000 + j, keys - 1, 90000000 + j), "d%d" % rng.below(keys)]
+            if form == 3:
+                ctl += ["flush", "p%d=%d" % (rng.below(keys), 91000000 + j)]
+            c["ctl"] = ctl + ["final"]
+        sessions.append(c)
+    last = sessions[-1]
+    return {"tag": "reopen%d" % idx, "sessions": sessions, "keys": keys, "progs": last["progs"], "yield": last["yield"],
+            "optname": last["optname"], "style": "reopen", "comp": last["comp"]}
+
+
 def forced_cases():
     """fixed gate-driven schedules (deterministic up to the points they pin)"""
     base = {"opts": ["--memtable-size-bytes", "100000000"] + STALL_OFF, "optname": "roomy", "comp": 0, "yield": 0, "seed": 1, "style": "forced"}
@@ -251,16 +301,18 @@ def forced_cases():
 
 
 # ------------------------------------------------------------------ running the implementation
-def run_impl(exe, case, root):
-    shutil.rmtree(root, ignore_errors=True)
-    os.makedirs(root)
+def run_impl(exe, case, root, fresh=True, remove=True):
+    if fresh:
+        shutil.rmtree(root, ignore_errors=True)
+        os.makedirs(root)
     try:
         p = subprocess.run([exe, root], input=(case_line(case) + "\n").encode(), stdout=subprocess.PIPE,
                            stderr=subprocess.DEVNULL, timeout=300)
         out = p.stdout.decode("utf-8", "replace").split("\n")
     except subprocess.TimeoutExpired as ex:
         out = (ex.stdout or b"").decode("utf-8", "replace").split("\n") + ["TIMEOUT"]
-    shutil.rmtree(root, ignore_errors=True)
+    if remove:
+        shutil.rmtree(root, ignore_errors=True)
     return out
 
 
@@ -304,6 +356,8 @@ class Convert:
             for j, i in enumerate(idxs):
                 self.pos_in_tid[i] = j
         self.fl = "idle"
+        # is the publication of a write (state.visible_seq_no = seq_no) observed by its own hook?
+        self.publish_hook = any(e[1] == "w_publish" for e in events)
 
     def opstr(self, tid, idx):
         try:
@@ -444,8 +498,17 @@ class Convert:
             self.emit("wwake %d" % tid)
             self.emit("whead %d %d" % (tid, int(a == b)))
             self.phase[tid] = "w_head" if a == b else "w_parked"
+        elif ph == "w_head" and what == "w_publish":
+            # recorded inside the critical section, right after the store: a = seq_no, b = visible_seq_no
+            self.emit("wpublish %d %d @vis=%d" % (tid, a, b))
+            self.cur[tid]["published"] = True
         elif ph == "w_head" and what == "unlink":
-            self.emit("wpublish %d %d" % (tid, self.cur[tid].get("seq", 0)))
+            if not self.cur[tid].get("published"):
+                if self.publish_hook:
+                    self.bad(i, "write left the wait list without publishing its sequence number")
+                # without the hook the publication is placed here, where the code has it (just before the guard
+                # is dropped), and is confirmed by the read timestamp (@vis) of every later snapshot
+                self.emit("wpublish %d %d" % (tid, self.cur[tid].get("seq", 0)))
             self.emit("wunlink %d" % tid)
             self.phase[tid] = "w_unlinked"
         elif ph == "w_unlinked" and what == "notify_head":
@@ -675,8 +738,46 @@ def oracle(case, hist, nevents):
 
 
 # ------------------------------------------------------------------ one case end to end (implementation side)
+def impl_side_sessions(exe, case, root):
+    """several sessions (processes) one after the other on ONE directory: exit + open in between; the labels of
+    the sessions are joined by `reopen` lines carrying the counters the next process reported at open"""
+    labels, problems, hist, notes, nevents, tail = [], [], [], [], 0, []
+    first_open, ended, off = None, True, 0
+    n = len(case["sessions"])
+    for j, sess in enumerate(case["sessions"]):
+        lines = run_impl(exe, sess, root, fresh=(j == 0), remove=(j == n - 1))
+        po = parse_output(lines)
+        tail = lines[-5:]
+        notes += po["notes"]
+        ended = ended and po["ended"]
+        if (po["open"] or ["x"])[0] != "ok":
+            ended = False
+            notes.append("session %d: open failed: %s" % (j, po["open"]))
+            break
+        if j == 0:
+            first_open = po["open"]
+        else:
+            labels.append("reopen %d 0 %s %s %s" % (900000 + j, po["open"][1], po["open"][2], po["open"][3]))
+        cv = Convert(sess, po["events"]).run()
+        labels += cv.labels
+        problems += ["session %d: %s" % (j, x) for x in cv.problems]
+        for op in cv.hist:
+            for k in ("inv", "ret", "snap", "done"):
+                if op.get(k) is not None:
+                    op[k] += off
+            op["tid"] = op["tid"] + 10000 * j          # threads of different processes are different threads
+            hist.append(op)
+        off += len(po["events"]) + 1
+        nevents += len(po["events"])
+    shutil.rmtree(root, ignore_errors=True)
+    return {"case": case, "po": {"open": first_open, "final": None, "notes": notes, "ended": ended}, "nevents": nevents,
+            "labels": labels, "problems": problems, "hist": hist, "raw_tail": tail}
+
+
 def impl_side(args):
     exe, case, root = args
+    if "sessions" in case:
+        return impl_side_sessions(exe, case, root)
     lines = run_impl(exe, case, root)
     po = parse_output(lines)
     cv = Convert(case, po["events"]).run()
@@ -755,6 +856,10 @@ def run(chk):
     nforced = len(cases) - ncorpus
     for i in range(n):
         cases.append(gen_case(rng, i, chk.tier))
+    nreopen = 14 if chk.tier == "quick" else 120
+    rr = rng.fork()
+    for i in range(nreopen):
+        cases.append(gen_reopen_case(rr, i, chk.tier))
     base = "/dev/shm" if os.path.isdir("/dev/shm") else chk.work
     top = os.path.join(base, "blue_verif_c06_%d" % os.getpid())
     shutil.rmtree(top, ignore_errors=True)
@@ -842,7 +947,7 @@ def run(chk):
 
     chk.coverage.update({
         "evaluations": len(cases), "distinct_nontrivial": len(distinct),
-        "rule": "one evaluation = one multi-threaded session of the real store (2..8 client threads + the real memtable thread + 0..2 real compaction threads; put / del / multi-key batches incl. duplicates, deletes, empty batches and batches that create new keys while updating existing ones / get / full and ranged scans walked forward, or forward and then backward (seek_to_last + prev) on the same snapshot cursor / multi-gets = several seeks on ONE snapshot cursor (sorted or not, repeats, absent keys); memtable sizes from 150 B (constant rollover) to unbounded; seeded yield probability 0..0.8 at the hook points; 6 forced gate schedules) whose recorded event trace (one SplitMix64 seed for the programs, option set and yield seed) is replayed on the extracted model and atomic store and whose invocation/response history is checked by the direct oracle; non-trivial = at least 40 model labels and at least one read whose snapshot was taken while a write with a larger sequence number was assigned and not yet complete; distinct = distinct label sequences",
+        "rule": "one evaluation = one multi-threaded session of the real store (2..8 client threads + the real memtable thread + 0..2 real compaction threads; put / del / multi-key batches incl. duplicates, deletes, empty batches and batches that create new keys while updating existing ones / get / full and ranged scans walked forward, or forward and then backward (seek_to_last + prev) on the same snapshot cursor / multi-gets = several seeks on ONE snapshot cursor (sorted or not, repeats, absent keys); memtable sizes from 150 B (constant rollover) to unbounded; seeded yield probability 0..0.8 at the hook points; forced gate schedules; session families that exit and re-open the same directory 1-2 times so that later sessions start with data in the tree) whose recorded event trace (one SplitMix64 seed for the programs, option set and yield seed) is replayed on the extracted model and atomic store and whose invocation/response history is checked by the direct oracle; non-trivial = at least 40 model labels and at least one read whose snapshot was taken while a write with a larger sequence number was assigned and not yet complete; distinct = distinct label sequences",
         "samples": [case_line(cases[ncorpus])[:400], case_line(cases[-1])[:400]],
         "input_distribution": stats, "corpus_cases": ncorpus, "forced_schedules": nforced,
         "correspondence": "real store (hooks ea9fafc: sync42::verif recorder + lsmtk kvs verif_events) vs extracted Conc.KvsConc.step and Conc.Spec.sstep, label by label, with the store's scalars (seq_no, mem_seq_no, imm_trigger, has_imm, read timestamp) asserted equal to the model's at every hook that reports them",
@@ -861,7 +966,8 @@ def run(chk):
     chk.assumptions = ["memory model: sequential consistency (interleaving of atomic steps)",
                        "MemTable skiplist insert / seek are atomic steps (their concurrency is C17's)",
                        "WaitList::link never blocks (fewer than MAX_CONCURRENCY = 65536 writers in flight)",
-                       "error paths of KeyValueStore::write (log append / batch size errors) are outside the model",
+                       "the error path of KeyValueStore::write is in the model as 'the log refuses the batch before anything is inserted'; only the empty batch exercises it on the real store (no oversized batch, no injected log I/O error)",
+                       "exit + open is covered for quiescent exits (KvsConc.reopen: no operation in flight, memtable thread idle); recovery after overlapping files is C01's known class K2 and is avoided by the reopen sessions",
                        "compactions are admissible (Lsm.History.acceptedb): C01/C05"]
     if mach_bad:
         chk.notes.append("harness sessions that did not finish: %d (first: %s)" % (len(mach_bad), json.dumps(mach_bad[0])[:600]))
